@@ -211,6 +211,12 @@ func runC09(c *Ctx, si interface{}) {
 				c.Fault(k, int64(v))
 			}
 			c.Distinct(desc, s.TapeSeed, "chunk", ch)
+			if res.Kind != "ok" {
+				// the statement can also be read as "fewer bytes than requested at a read => abort":
+				// failing closed on a short read is accepted, a *different password* is not
+				c.Count("aborted_on_chunked_delivery", 1)
+				continue
+			}
 			if !sameResult(pilot, res) {
 				c.Violate("chunking-changes-result", "", "%s: bytes delivered in chunks (%s) gave %s, delivered whole they gave %s", desc, ch, res.brief(), pilot.brief())
 				narrow("chunk", nil)
@@ -348,8 +354,11 @@ func runC09(c *Ctx, si interface{}) {
 						return
 					}
 				} else {
-					// short / zero-length successful reads are legal chunking: same result
-					if !sameResult(pilot, res) {
+					// short / zero-length successful reads are legal chunking: same result (or, on the
+					// other reading of the statement, an abort) - never a different password
+					if res.Kind != "ok" {
+						c.Count("aborted_on_short_read", 1)
+					} else if !sameResult(pilot, res) {
 						c.Violate("short-read-changes-result", "", "%s: a short successful read (%s %d at read %d) gave %s instead of %s", desc, f.Kind, f.Arg, k, res.brief(), pilot.brief())
 						ff := f
 						narrow("fault", &ff)
